@@ -507,6 +507,7 @@ type sim struct {
 	ownSeedMemo int
 	ownNpMemo   int
 	ownDataMemo string
+	genPeer     int // the peer the generator is producing a message for
 
 	memBase runtime.MemStats
 }
@@ -1265,6 +1266,7 @@ func (s *sim) Next(rng *simcore.RNG) simcore.Op {
 		return op
 	case 1:
 		pm := s.peers[hostile[rng.Intn(len(hostile))]]
+		s.genPeer = pm.idx
 		op := s.genHostile(rng)
 		if rng.Bool(0.6) {
 			// prefer messages that do not get their sender dropped on the spot: peer state builds up
@@ -1281,6 +1283,7 @@ func (s *sim) Next(rng *simcore.RNG) simcore.Op {
 	case 2:
 		return simcore.Op{"a": "dup", "p": hostile[rng.Intn(len(hostile))], "n": rng.Range(1, 3)}
 	case 3:
+		s.genPeer = -1
 		op := s.genHostile(rng)
 		op["a"] = "x"
 		op["p"] = gone[rng.Intn(len(gone))]
@@ -1455,7 +1458,12 @@ func (s *sim) hostileDelivery(pm *peerM, h *hostileMsg) {
 		return
 	}
 	inSet, running := s.connected(pm)
-	if wasLive && h.must != "" && inSet && running {
+	if wasLive && inSet && running && h.ch == 0x40 {
+		// the more severe verdict first: an accepted block that would crash the pool routine
+		s.probeBlockSync(pm, h)
+		inSet, running = s.connected(pm)
+	}
+	if wasLive && h.must != "" && inSet && running && os.Getenv("REACTORSIM_NOPROBE") == "" {
 		if s.env.Report("C17", "invalid-msg-peer-kept:"+h.kind, "peer %d sent a %s that is invalid (%s) and is still connected", pm.idx, h.kind, h.must) {
 			panic(simStop{})
 		}
@@ -1466,6 +1474,58 @@ func (s *sim) hostileDelivery(pm *peerM, h *hostileMsg) {
 	if h.kind == "cons.nrs" && inSet {
 		pm.nrs = true
 	}
+}
+
+// probeBlockSync: a block response that got past the reactor's validation is (when it answers a
+// request) kept by the block pool, and the reactor's poolRoutine - a goroutine without recover -
+// verifies and stores it on its next 10ms tick: hashes it, splits it into parts and runs
+// Validators.VerifyCommit over its LastCommit. The same calls are made here first, on a private
+// decode of the same bytes; a panic in them is the crash of the node one tick ahead.
+func (s *sim) probeBlockSync(pm *peerM, h *hostileMsg) {
+	if os.Getenv("REACTORSIM_NOPROBE") != "" || !s.syncing() {
+		return
+	}
+	m := &bcproto.Message{}
+	if proto.Unmarshal(h.bz, m) != nil {
+		return
+	}
+	br := m.GetBlockResponse()
+	if br == nil || br.Block == nil {
+		return
+	}
+	b, err := types.BlockFromProto(br.Block)
+	if err != nil || b.LastCommit == nil {
+		return
+	}
+	s.env.Count("probe.blocksync_block_past_validation")
+	st := s.conS.GetState()
+	what := ""
+	msg := tryPanic(func() {
+		what = "Block.Hash"
+		_ = b.Hash()
+		what = "Block.MakePartSet"
+		_ = b.MakePartSet(types.BlockPartSizeBytes)
+		if b.LastCommit.Height >= 1 {
+			what = "ValidatorSet.VerifyCommit(LastCommit)"
+			_ = st.Validators.VerifyCommit(st.ChainID, b.LastCommit.BlockID, b.LastCommit.Height, b.LastCommit)
+		}
+	})
+	if msg == "" {
+		return
+	}
+	s.env.Count("probe.blocksync_crash_predicted")
+	detail := fmt.Sprintf("peer %d's %s (block %d, %d commit entries) passed the blockchain reactor's validation; %s on it panics: %s. poolRoutine makes this call for a pooled block outside any recover: the node process would crash (and again after every restart while the peer serves it)",
+		pm.idx, h.kind, b.Height, len(b.LastCommit.Signatures), what, msg)
+	rep := s.env.Report("C17", "bc-pool-crash:"+slug(msg), "%s", detail)
+	// the pool must not keep it until the next tick: it would take the worker down
+	pm.left = true
+	s.sw.StopPeerGracefully(pm.sp)
+	s.env.Settle()
+	s.quar++
+	if rep {
+		panic(simStop{})
+	}
+	s.observePeers("blocksync/quarantine")
 }
 
 func (s *sim) Finish() {
